@@ -508,7 +508,7 @@ func c14PatchCase(c *mon.Ctx, s cliShape, bin Binary, a, b any) {
 	}
 	if !okEq {
 		reason := "jd [flags] a b | jd -p [flags] on a does not reproduce b"
-		if s.format == "merge" && strings.TrimSpace(patchText) == "{}" && err == nil && ref.Eq(back, a, ref.List) {
+		if s.format == "merge" && strings.TrimSpace(patchText) == "{}" && err == nil && ref.Eq(back, a, reading) {
 			c.Known("F15", reason, extra)
 			return
 		}
